@@ -18,6 +18,7 @@ def jobs(res):
         engine.oob_demo(res)
         engine.export_family("q")
         engine.export_family("t3s")
+        engine.export_family("n4")
 
     return [
         shell,
